@@ -127,8 +127,17 @@ impl TransformerContext {
     pub fn get_element(&self, elref: &ElRef) -> (r: Option<&SvgElement>) ensures r is Some == known(*self, *elref) { unimplemented!() }
     #[verifier::external_body]
     pub fn get_element_bbox(&self, el: &SvgElement) -> Result<Option<BoundingBox>> { unimplemented!() }
+    /// (under contract in U-scope: only the content box of the registered copy changes)
+    #[verifier::external_body]
+    pub fn set_element_content_bbox(&mut self, el: &SvgElement, bbox: Option<BoundingBox>)
+        ensures final(self).current_depth == old(self).current_depth, final(self).config == old(self).config, final(self).gen_depths == old(self).gen_depths, final(self).events == old(self).events,
+            forall|r: ElRef| known(*old(self), r) == #[trigger] known(*final(self), r),
+    { unimplemented!() }
+    /// ghost: the element is the RESOLVED form of itself (attributes evaluated, shorthands expanded, positioned) - what the generators register
+    pub uninterp spec fn resolved_form(el: SvgElement) -> bool;
     #[verifier::external_body]
     pub fn update_element(&mut self, el: &SvgElement)
+        requires Self::resolved_form(*el)     // in the dispatcher `self` is the element as WRITTEN: registering it would replace the resolved copy a later <use> / inside= / reuse needs @C08.clip.registered_element_stays_resolved @C10.clip.registered_element_stays_resolved
         ensures final(self).current_depth == old(self).current_depth, final(self).config == old(self).config, final(self).gen_depths == old(self).gen_depths,
             forall|r: ElRef| known(*old(self), r) ==> #[trigger] known(*final(self), r),      // registration only adds
     { unimplemented!() }
